@@ -115,6 +115,12 @@ func c20Load() []c20Doc {
 			}
 		}
 	}
+	// shapes of documented keys that none of the repository's documents uses
+	addText("shape/validity-from-duration", []byte(`{"version":1,"subject":"CN=Shape, C=DE","keyAlgorithm":"P-224","validity":{"from":"2020-01-01","duration":"5y"}}`))
+	addText("shape/validity-from-until", []byte(`{"version":1,"subject":"CN=Shape, C=DE","keyAlgorithm":"P-224","validity":{"from":"2020-01-01","until":"2040-01-01"}}`))
+	addText("shape/validity-until-only", []byte(`{"version":1,"subject":"CN=Shape, C=DE","keyAlgorithm":"P-224","validity":{"until":"2040-01-01"}}`))
+	addText("shape/profile-validity-from-duration", []byte(`{"version":1,"name":"shape-profile","validity":{"from":"2020-01-01","duration":"5y"}}`))
+	addText("shape/profile-validity-from-until", []byte(`{"version":1,"name":"shape-profile","validity":{"from":"2020-01-01","until":"2040-01-01"}}`))
 	c20Docs = out
 	return out
 }
@@ -239,7 +245,7 @@ var c20Hostile = []string{
 	`"2024-13-45"`, `"2023-02-30"`, `"0000-00-00"`, `"9999-12-31"`, `"99999999999999999999y"`, `"99999999y99999999m99999999d"`,
 	`"!binary:"`, `"!binary:A"`, `"!binary:===="`, `"!binary:AAAA"`, `"!bogus"`, `"!null"`, `"!empty"`, `"hash"`,
 	`"` + strings.Repeat("A", 100000) + `"`, `"\u0000"`, `"😂"`, `"CN=x,CN="`, `"256.1.1.300"`, `"1.2.3"`,
-	`null`, `[]`, `{}`, `true`, `{"a":{"b":[1]}}`, `[[]]`, `["x"]`,
+	`null`, `[]`, `{}`, `true`, `{"a":{"b":[1]}}`, `[[]]`, `["x"]`, `"9223372036854772807y"`,
 }
 
 var c20OIDSlot = regexp.MustCompile(`(^|\.)(oid|professionOids\.\[\]|\.signatureAlgorithm|\.tbs\.signature|algorithm)$|manipulations\.(\.signatureAlgorithm|\.tbs\.signature|\.tbs\.subjectPublicKey\.algorithm)$|extendedKeyUsage\.content\.\[\]$`)
@@ -299,6 +305,46 @@ func c20RunWorld(x *engine.Ctx, files map[string][]byte, strats []int, what stri
 		last = res
 	}
 	return last, w
+}
+
+// c20RunEdited: the hierarchy is first generated from the unmodified document, then the document
+// is replaced by the modified text and the strategies run on the settled directory (existing
+// certificates, keys and hash lines meet the new text).
+func c20RunEdited(x *engine.Ctx, d c20Doc, text []byte, strats []int, what string) {
+	files := c20World(d, d.Text)
+	w := simfs.New(simfs.TickPerWrite)
+	var names []string
+	for p := range files {
+		names = append(names, p)
+	}
+	sort.Strings(names)
+	for _, p := range names {
+		w.Put(p, files[p])
+	}
+	res := drive.Run(w, drive.Default, nil)
+	x.Transition(1)
+	if res.Panic != "" || !res.OK() {
+		return // the unmodified document alone is the corpus case's business
+	}
+	settled := map[string][]byte{}
+	for p, f := range w.Files {
+		settled[p] = f.Data
+	}
+	target := "mut.yaml"
+	if d.Profile {
+		target = "prof.yaml"
+	}
+	settled[target] = text
+	w.Put(target, text)
+	for _, st := range strats {
+		res := drive.Run(w, dbStrat(st), nil)
+		x.Transition(1)
+		if res.Panic != "" {
+			x.ViolationCase(c20PanicClass(res.PanicSite, res.Panic), fmt.Sprintf("%s, edited into a directory generated from the unmodified document, strategy %05b: panic %s", what, st, short(res.Panic, 300)), &c20Case{Kind: "one", Files: settled, Strats: strats, What: what + " (edited into a settled directory)"})
+			return
+		}
+		x.Outcome("edited: " + res.Summary())
+	}
 }
 
 func c20Protect(x *engine.Ctx, class, what string, f func()) {
@@ -471,6 +517,7 @@ func c20Exec(x *engine.Ctx, cc any) {
 				// refused by the parser: in a directory the file is skipped with a warning; run once for the
 				// hierarchy around it, no need for three runs
 				c20RunWorld(x, c20World(d, text), []int{9}, what)
+				c20RunEdited(x, d, text, []int{9}, what)
 				n++
 				continue
 			}
@@ -504,6 +551,7 @@ func c20Exec(x *engine.Ctx, cc any) {
 				}
 			}
 			c20RunWorld(x, c20World(d, text), []int{9, 9, 25}, what)
+			c20RunEdited(x, d, text, []int{9, 14}, what)
 			n++
 		}
 		// one more deviation: the slot is removed altogether (a key left out, a list entry dropped)
@@ -513,6 +561,7 @@ func c20Exec(x *engine.Ctx, cc any) {
 			x.Nontrivial(fmt.Sprintf("slot %d %d del", c.Doc, c.Slot))
 			c20Protect(x, "", "ParseConfig: "+what, func() { config.ParseConfig(bytes.NewReader(text)) })
 			c20RunWorld(x, c20World(d, text), []int{9, 9, 25}, what)
+			c20RunEdited(x, d, text, []int{9, 14}, what)
 			n++
 		}
 		x.Eval(n - 1)
@@ -850,7 +899,7 @@ func init() {
 	register(&engine.Check{
 		ID:          "C20",
 		Level:       "exploration",
-		Rule:        "deviation-bounded enumeration from a valid corpus (the two *-example.yaml documents, examples/, the certificate/extension/profile schema test corpora read from /repo, and artifacts gopki produces): (1) every scalar and container slot of every corpus document replaced by each of 41 hostile values (empty, blank, 0, -1, 2^31, 2^63, 10^30, 1e400, 1.5, OIDs with over-long arcs / wrong first arcs / single arc, impossible dates, huge durations, malformed base64, wrong types, 100 kB string, NUL, emoji, null, [], {}, nested containers) and by removal of the slot, the document placed as root with a child (or as profile of two entities) and run default; default; -a; thorough adds two deviations for all pairs among OID-, date- and raw-valued slots of the example documents; (2) byte level: every prefix and every offset x 8 bytes of the configuration texts through ParseConfig (quick: documents <=3 kB), every cut and offset x 7 bytes of generated PEM files, every offset x 6 byte values of the DER inside each PEM block re-armoured, through ReadPem and whole runs; 12 placements of the #HASH line x 32 strategies; (3) root and sub artifact each in 10 states (no file, empty, hash only, cert only, key only, CSR only, cert+key, cert+CSR, key+CSR, garbage) x 32 strategies followed by a default run, and the three-tier extension. Oracle: no panic / fatal error; an over-long OID arc in an OID-valued slot must make ParseConfig return an error. non-trivial = distinct mutated inputs executed",
+		Rule:        "deviation-bounded enumeration from a valid corpus (the two *-example.yaml documents, examples/, the certificate/extension/profile schema test corpora read from /repo, and artifacts gopki produces): (1) every scalar and container slot of every corpus document replaced by each of 41 hostile values (empty, blank, 0, -1, 2^31, 2^63, 10^30, 1e400, 1.5, OIDs with over-long arcs / wrong first arcs / single arc, impossible dates, huge durations, malformed base64, wrong types, 100 kB string, NUL, emoji, null, [], {}, nested containers) and by removal of the slot, the document placed as root with a child (or as profile of two entities) and run default; default; -a on a fresh directory, and edited into the directory already generated from the unmodified document and run default; -e -o -c (existing certificates, keys and hash lines meet the hostile text); five added documents give the validity shapes from+duration, from+until, until-only (certificate and profile) that the repository's documents lack; thorough adds two deviations for all pairs among OID-, date- and raw-valued slots of the example documents; (2) byte level: every prefix and every offset x 8 bytes of the configuration texts through ParseConfig (quick: documents <=3 kB), every cut and offset x 7 bytes of generated PEM files, every offset x 6 byte values of the DER inside each PEM block re-armoured, through ReadPem and whole runs; 12 placements of the #HASH line x 32 strategies; (3) root and sub artifact each in 10 states (no file, empty, hash only, cert only, key only, CSR only, cert+key, cert+CSR, key+CSR, garbage) x 32 strategies followed by a default run, and the three-tier extension. Oracle: no panic / fatal error; an over-long OID arc in an OID-valued slot must make ParseConfig return an error. non-trivial = distinct mutated inputs executed",
 		Bound:       map[string]string{"deviations from the corpus": "1 (thorough: 2 for OID/date/raw slots)"},
 		Assumptions: []string{"'all byte strings' is unbounded; coverage-guided mutation is sampling and outside this technique: decided is exactly the deviation-bounded space", "fatal (unrecoverable) errors are attributed to the announced case"},
 		Budget:      budgets(quickBudget, thoroughBudget),
